@@ -7,7 +7,7 @@ theorem localOK_eq_rules (T : Table) (o : Opts) (d : Doc) (hT : TableOK T = true
   cases d with | node k a kids =>
   unfold exclLocal at hex
   simp only [Bool.or_eq_false_iff] at hex
-  obtain ⟨⟨⟨h7, hh⟩, hi⟩, he⟩ := hex
+  obtain ⟨⟨⟨⟨h7, hh⟩, hi⟩, he⟩, hhe⟩ := hex
   cases k
   all_goals first
     | exact localOK_plainExt T o _ a kids hT (by decide)
@@ -21,7 +21,15 @@ theorem localOK_eq_rules (T : Table) (o : Opts) (d : Doc) (hT : TableOK T = true
     | exact localOK_paths T o a kids hT h7
     | (rw [rulesOK_header T o a kids hT]
        have hx : extKeysOK o a.exts = true := by simpa [exclHeaderNode, Doc.kind, Doc.attrs] using hh
-       simp [hx])
+       have hy : headerExampleClause o (.node .header a kids) = true := by
+         unfold exclHeaderExampleNode at hhe
+         unfold headerExampleClause
+         simp only [Doc.kind, Doc.attrs, decide_true, Bool.true_and] at hhe ⊢
+         revert hhe
+         generalize exampleOK _ = A
+         generalize examplesGivenOK _ = C
+         cases a.flag "hasSchema" <;> cases o.exDisabled <;> cases A <;> cases C <;> simp
+       simp [hx, hy])
     | (rw [rulesOK_inner T o a kids]
        have hx : refSibsOK o a = true := by simpa [exclInnerNode, Doc.kind, Doc.attrs] using hi
        simp [hx])
@@ -41,7 +49,7 @@ theorem localOK_of_rulesOK (T : Table) (o : Opts) (d : Doc) (hT : TableOK T = tr
     | (rw [localOK_parameter T o a kids hT he]; exact h)
     | (rw [localOK_mediaType T o a kids hT he]; exact h)
     | exact localOK_paths_of_rules T o a kids hT h
-    | (rw [rulesOK_header T o a kids hT, Bool.and_eq_true] at h; exact h.1)
+    | (rw [rulesOK_header T o a kids hT, Bool.and_eq_true, Bool.and_eq_true] at h; exact h.1.1)
     | (rw [rulesOK_inner T o a kids, Bool.and_eq_true] at h; exact h.2)
 
 end KinModel.DocValidate
